@@ -734,10 +734,16 @@ Ltac core_step :=
         | rewrite broadcast_core | rewrite send_up_core | rewrite relay_except_core
         | rewrite send_core | rewrite insert_asset_core | rewrite request_asset_core ].
 
-Lemma signal_component_changed_core pr u t v : core (signal_component_changed pr u t v) = core pr.
-Proof. unfold signal_component_changed. destruct (mem_pair _ _); reflexivity. Qed.
-Lemma signal_component_changed_out pr u t v : p_out (signal_component_changed pr u t v) = p_out pr.
-Proof. unfold signal_component_changed. destruct (mem_pair _ _); reflexivity. Qed.
+Lemma signal_component_changed_core pr u t v ch : core (signal_component_changed pr u t v ch) = core pr.
+Proof.
+  unfold signal_component_changed. destruct (tok_find _ _) as [at_|]; [|reflexivity].
+  cbv zeta. destruct (at_ =? ch); reflexivity.
+Qed.
+Lemma signal_component_changed_out pr u t v ch : p_out (signal_component_changed pr u t v ch) = p_out pr.
+Proof.
+  unfold signal_component_changed. destruct (tok_find _ _) as [at_|]; [|reflexivity].
+  cbv zeta. destruct (at_ =? ch); reflexivity.
+Qed.
 
 Lemma entity_parented_server_core pr last : core (entity_parented_server pr last) = core pr.
 Proof.
